@@ -714,9 +714,17 @@ package desync
 //@     forall k int :: 0 <= k && k < len(cs) ==> cs[k].ID == its[k].Chunk && cs[k].Start + cs[k].Size == its[k].Offset && \
 //@         cs[k].Start == ite(k == 0, 0, its[k-1].Offset)
 
+//# what WriteTo needs of the chunk list: bounded offsets, first chunk at 0, each chunk starting where the previous ends
+//@ spec func adjChunks(cs []IndexChunk) bool = offsetsBounded(cs) && (len(cs) > 0 ==> cs[0].Start == 0) && \
+//@     (forall k int :: 0 < k && k < len(cs) ==> cs[k].Start == cs[k-1].Start + cs[k-1].Size)
+
+//@ func (s IndexStore) GetIndex(name) (r0, err)
+//@   pure
+//@   ensures err == nil ==> adjChunks(r0.Chunks)
+
 //@ func (i *Index) WriteTo
 //@   prop C04
-//@   requires wfChunks(i.Chunks)
+//@   requires adjChunks(i.Chunks)
 //@   ghost@after:Encode $items = as($a0, FormatTable).Items
 //# the bytes handed to the writer: 48-byte index header with this index's parameters, directly followed by
 //# the chunk table whose items are the cumulative end offsets and IDs of this index's chunks
@@ -1012,3 +1020,125 @@ package desync
 //@   oncall RemoveChunk: requires $last == nil && $arg0 == id && !has(ids, id)
 //@   oncall idFromName: requires $arg0 == object.Key
 //@   assert@loop1.iterend $removed <==> ($last == nil && !has(ids, id))
+
+// ---------------------------------------------------------------------------- C15 / C14: HTTP servers
+
+//@ ghost var $status int
+//@ ghost var $authOK bool
+//# $authOK: the request carries exactly the configured Authorization value (or none is configured)
+
+//@ func (h HTTPHandler) ServeHTTP
+//@   prop C15
+//@   safety none
+//@   ghost@entry $authOK = (h.authorization == "" || hdrGet(r.Header, "Authorization") == h.authorization)
+//# no handler (and no store access) is reached by a request that does not carry the configured value
+//@   oncall get: requires $authOK
+//@   oncall head: requires $authOK
+//@   oncall put: requires $authOK
+//@   oncall idFromPath: requires $authOK && $arg0 == r.URL.Path
+//@   oncall Store.GetChunk: requires false
+//@   oncall Store.HasChunk: requires false
+//@   oncall WriteStore.StoreChunk: requires false
+//@   ensures !$authOK ==> $status == 401
+//@   ghost@after:idFromPath $last = $r1
+//@   ensures $authOK && $last != nil ==> $status == 400
+
+//@ func (h HTTPHandler) idFromPath
+//@   prop C15
+//@   safety none
+//@   pure
+//# the only thing a request path can select is the chunk whose 64-digit ID is the path's base name (minus the
+//# extension), and only if the path is exactly the canonical /<first four digits>/<id><ext>
+//@   ensures r1 == nil ==> isHex64(trimSuffix(pbase(p), extOf(!h.compressed))) && r0 == idOfHex(trimSuffix(pbase(p), extOf(!h.compressed))) && \
+//@       p == pjoin(pjoin("/", trimSuffix(pbase(p), extOf(!h.compressed))[0:4]), trimSuffix(pbase(p), extOf(!h.compressed)) + extOf(!h.compressed))
+
+//@ func (h HTTPHandler) get
+//@   prop C15 C14
+//@   safety none
+//@   requires $authOK
+//@   oncall Store.GetChunk: requires $authOK && $arg0 == id
+//@   oncall Store.HasChunk: requires false
+//@   oncall WriteStore.StoreChunk: requires false
+
+//@ func (h HTTPHandler) head
+//@   prop C15 C14
+//@   safety none
+//@   requires $authOK
+//@   ghost@after:HasChunk $last = $r1
+//@   ghost@after:HasChunk $done = $r0
+//@   oncall Store.HasChunk: requires $authOK && $arg0 == id
+//@   oncall Store.GetChunk: requires false
+//@   oncall WriteStore.StoreChunk: requires false
+//# missing is reported as missing, present as present, a failure as a failure
+//@   ensures @C14 $last != nil ==> $status == 500
+//@   ensures @C14 $last == nil && $done ==> $status == 200
+//@   ensures @C14 $last == nil && !$done ==> $status == 404
+
+//@ func (h HTTPHandler) put
+//@   prop C15
+//@   safety none
+//@   requires $authOK
+//@   ghost@entry $last = nil
+//@   ghost@entry $attempts = 0
+//@   ghost@after:NewChunkFromStorage $last = $r1
+//@   ghost@after:NewChunkFromStorage $attempts = $attempts + 1
+//# the body is read and the store is written only on a writable server; what is stored is the chunk built by the
+//# verifying constructor from the uploaded bytes for the ID of the request path, with this server's verify-write setting
+//@   oncall Copy: requires h.writable
+//@   assert@after:NewChunkFromStorage $a0 == id && $a2 == h.converters && $a3 == h.SkipVerifyWrite
+//@   oncall WriteStore.StoreChunk: requires h.writable && $authOK && $attempts == 1 && $last == nil && $arg0 == chunk
+//@   oncall Store.GetChunk: requires false
+//@   ensures !h.writable ==> $status == 400
+//@   ensures h.writable && $attempts == 1 && $last != nil ==> $status == 400
+
+//@ func (h HTTPHandlerBase) validateWritable
+//@   prop C15
+//@   safety none
+//@   pure
+//@   modifies $status
+//@   ensures r0 == nil <==> h.writable
+//@   ensures !h.writable ==> $status == 400
+
+//@ func (h HTTPHandlerBase) get
+//@   prop C14 C15
+//@   safety none
+//@   pure
+//@   modifies $status
+//# status map: success 200, missing chunk/object 404, every other error 500
+//@   ensures err == nil ==> $status == 200
+//@   ensures is(err, ChunkMissing) || is(err, NoSuchObject) ==> $status == 404
+//@   ensures err != nil && !is(err, ChunkMissing) && !is(err, NoSuchObject) ==> $status == 500
+
+//@ func (h HTTPIndexHandler) ServeHTTP
+//@   prop C15
+//@   safety none
+//@   requires $consumed >= 0
+//@   ghost@entry $authOK = (h.authorization == "" || hdrGet(r.Header, "Authorization") == h.authorization)
+//@   oncall get: requires $authOK && $arg0 == pbase(r.URL.Path)
+//@   oncall head: requires $authOK && $arg0 == pbase(r.URL.Path)
+//@   oncall put: requires $authOK && $arg0 == pbase(r.URL.Path)
+//@   ensures !$authOK ==> $status == 401
+
+//@ func (h HTTPIndexHandler) head
+//@   prop C14 C15
+//@   safety none
+//@   ghost@after:GetIndexReader $last = $r1
+//@   ensures $last == nil ==> $status == 200
+//@   ensures $last != nil ==> $status == 404
+
+//@ func (h HTTPIndexHandler) get
+//@   prop C15 C14
+//@   safety none
+//@   oncall IndexStore.GetIndex: requires $arg0 == indexName
+
+//@ func (h HTTPIndexHandler) put
+//@   prop C15
+//@   safety none
+//@   requires $consumed >= 0
+//@   ghost@entry $last = nil
+//@   ghost@entry $attempts = 0
+//@   ghost@after:IndexFromReader $last = $r1
+//@   ghost@after:IndexFromReader $attempts = $attempts + 1
+//@   oncall IndexFromReader: requires h.writable
+//@   oncall StoreIndex: requires h.writable && $attempts == 1 && $last == nil && $arg0 == indexName && $arg1 == idx
+//@   ensures !h.writable ==> $status == 400
